@@ -52,8 +52,15 @@ def impl_objects(args):
         return type(ex).__name__, None, 0, str(ex)[:80]
 
 
+_IMPL_N = [0]
+
+
 def impl(case, how="array", again=True):
     from pybads import BADS
+    # whatever the process-wide generator holds when a definition is constructed must not matter (the constructor is given random_seed=1):
+    # it is left in another state before every construction
+    _IMPL_N[0] += 1
+    np.random.seed(1000 + _IMPL_N[0])
     calls = [0]
     def f(x):
         calls[0] += 1
@@ -242,8 +249,11 @@ def check_cases(ctx, cases, rep, tag="case"):
             out2, norm2, n2, msg2 = impl(c, how)
             stats["spellings_checked"] += 1
             same = out2 == out and (norm2 is None or all(np.array_equal(np.array(norm2[k]), np.array(norm[k]), equal_nan=True) for k in ("lb", "ub", "plb", "pub")))
-            if same and norm2 is not None and all(v != "nan" for v in (m.get("ok") or {"x0": ["nan"]})["x0"]):
+            if same and norm2 is not None:
+                # also when the start point is drawn (x0 omitted / NaN): the seed is the same, so is the draw
                 same = np.array_equal(np.array(norm2["x0"]), np.array(norm["x0"]))
+                if not same:
+                    msg2 = f"start point {norm2['x0']} vs {norm['x0']}"
                 if same and not all(np.array_equal(np.array(a), np.array(b_), equal_nan=True) for a, b_ in zip(norm2["int"], norm["int"])):
                     same = False
                     msg2 = f"internal problem (lb, ub, plb, pub, u0) {norm2['int']} vs {norm['int']}"
